@@ -59,7 +59,11 @@ class Wrap(Contract):
 
     def stubs(self, P):
         def wrap(x, signed, n_word):
+            from contracts.l2_core import core_assert
             a = P.np.asarray(x)
+            if n_word < 64:
+                # the int64 branch casts with astype(int): elements must fit int64
+                core_assert(unM(And(*[And(M(int_value(e)) >= -2**63, M(int_value(e)) < 2**63) for e in elems(a)])), 'utils.wrap.pre: |x| < 2^63 on the int64 branch')
             el = []
             for e in elems(a):
                 iv = int_value(e)
